@@ -14,6 +14,7 @@ import (
 	"encoding/binary"
 	"encoding/hex"
 	"fmt"
+	"math/big"
 	"math/rand"
 	"os"
 	"os/exec"
@@ -56,6 +57,7 @@ type vgen struct {
 	dist map[string]int
 	// kinds of verification cases that also go through the wire path on the large (> 64 addresses) guardian lists
 	wireKinds map[string]bool
+	crafts    int // number of craftFamily calls so far
 }
 
 func (g *vgen) id(kind string) string {
@@ -451,6 +453,48 @@ func vsign(k vkey, digest []byte) [65]byte {
 	return out
 }
 
+// ---- signature ENCODINGS (C06: "succeeds if ... every signature recovers, over the VAA's digest, to the address at the guardian index
+// it claims").  Which 65-byte strings recover, and to what, is decided by the oracle (go-ethereum's crypto.Ecrecover, module cache) and
+// by nothing else: crypto.Sign only ever emits one of the two encodings of a signature (the low-s one), an HSM / KMS signer or a relayer
+// may hand over the other.
+
+var vCurveN = crypto.S256().Params().N
+var vHalfN = new(big.Int).Rsh(vCurveN, 1)
+
+func vrecAddr(digest []byte, sig [65]byte) (common.Address, bool) {
+	pk, err := crypto.Ecrecover(digest, sig[:])
+	if err != nil {
+		return common.Address{}, false
+	}
+	return common.BytesToAddress(crypto.Keccak256(pk[1:])[12:]), true
+}
+
+func vcraft(r, s *big.Int, v byte) (out [65]byte) {
+	r.FillBytes(out[:32])
+	s.FillBytes(out[32:64])
+	out[64] = v
+	return
+}
+
+// vnegS: s replaced by N - s, recovery id as it is (recovers to a different key, if at all).
+func vnegS(sig [65]byte) [65]byte {
+	s := new(big.Int).SetBytes(sig[32:64])
+	return vcraft(new(big.Int).SetBytes(sig[:32]), s.Sub(vCurveN, s).Mod(s, new(big.Int).Lsh(big.NewInt(1), 256)), sig[64])
+}
+
+// vtwin: the second encoding (r, N-s, v^1) of the ECDSA signature (r, s, v).  For a signature that recovers over `digest` the twin
+// must recover to the same address - checked with the oracle here, so that a case labelled "twin" is one.
+func vtwin(digest []byte, sig [65]byte) [65]byte {
+	tw := vnegS(sig)
+	tw[64] ^= 1
+	a, ok := vrecAddr(digest, sig)
+	b, ok2 := vrecAddr(digest, tw)
+	if ok && sig[64] < 2 && (!ok2 || a != b) {
+		panic(fmt.Sprintf("harness: crypto.Ecrecover does not recover the twin of %x to the signer's address", sig))
+	}
+	return tw
+}
+
 func vaddrs(addrs []common.Address) string {
 	if len(addrs) == 0 {
 		return "-"
@@ -672,6 +716,74 @@ func (g *vgen) verifyFamily(keys []vkey, n int, repeats bool) {
 		c = vclone(valid)
 		c.Signatures = append(c.Signatures[:i], c.Signatures[i+1:]...)
 		g.ver("dropone", c, addrs)
+		// the OTHER encoding of the same signatures: (r, N-s, v^1) recovers over the same digest to the same guardian (oracle), so a
+		// list in which one / the first / the last / some / all signatures come in that form is exactly as valid as the original
+		twinAt := func(c *VAA, pos ...int) *VAA {
+			for _, p := range pos {
+				c.Signatures[p].Signature = vtwin(digest, c.Signatures[p].Signature)
+			}
+			return c
+		}
+		all := make([]int, len(idx))
+		var some []int
+		for p := range all {
+			all[p] = p
+			if r.Intn(2) == 0 {
+				some = append(some, p)
+			}
+		}
+		if len(some) == 0 || (len(some) == len(idx) && len(idx) > 1) {
+			some = []int{r.Intn(len(idx))}
+		}
+		g.ver("twin-one", twinAt(vclone(valid), i), addrs)
+		g.ver("twin-all", twinAt(vclone(valid), all...), addrs)
+		g.ver("twin-mixed", twinAt(vclone(valid), some...), addrs)
+		small := n <= 64 || os.Getenv("VERIF_TIER") == "thorough" // (the long lists cost ~25 ms of ecrecover per case)
+		if len(idx) >= 2 && !small {
+			g.ver("twin-alternate", twinAt(vclone(valid), all[len(all)/2:]...), addrs) // second half
+		}
+		if len(idx) >= 2 && small {
+			g.ver("twin-first", twinAt(vclone(valid), 0), addrs)
+			g.ver("twin-last", twinAt(vclone(valid), len(idx)-1), addrs)
+			// every second signature, starting with the first / the second
+			var even, odd []int
+			for p := range all {
+				if p%2 == 0 {
+					even = append(even, p)
+				} else {
+					odd = append(odd, p)
+				}
+			}
+			g.ver("twin-alternate", twinAt(vclone(valid), even...), addrs)
+			g.ver("twin-alternate", twinAt(vclone(valid), odd...), addrs)
+		}
+		// ... and as invalid as the original under the same corruptions: a signature next to its own twin (same index, and re-indexed
+		// to the next guardian), twins out of order, twins over another body, an outsider's twin, a half twin (s negated, recovery id kept)
+		c = vclone(valid)
+		d2 := *c.Signatures[i]
+		d2.Signature = vtwin(digest, d2.Signature)
+		c.Signatures = append(c.Signatures[:i+1], append([]*Signature{&d2}, c.Signatures[i+1:]...)...)
+		g.ver("twin-beside-original", c, addrs)
+		if small {
+			c = vclone(c)
+			c.Signatures[i+1].Index = uint8((idx[i] + 1) % n)
+			g.ver("twin-reindexed-beside-original", c, addrs)
+		}
+		c = twinAt(vclone(valid), all...)
+		c.Payload[r.Intn(len(c.Payload))] ^= 1 << uint(r.Intn(8))
+		g.ver("twin-bodyflip", c, addrs)
+		c = vclone(valid)
+		c.Signatures[i].Signature = vtwin(digest, vsign(vnewKey(), digest))
+		g.ver("twin-outsider", c, addrs)
+		c = vclone(valid)
+		c.Signatures[i].Signature = vnegS(c.Signatures[i].Signature)
+		g.ver("halftwin", c, addrs)
+		if len(idx) >= 2 && small {
+			c = twinAt(vclone(valid), all...)
+			j := r.Intn(len(idx) - 1)
+			c.Signatures[j], c.Signatures[j+1] = c.Signatures[j+1], c.Signatures[j]
+			g.ver("twin-swap", c, addrs)
+		}
 	}
 	if repeats && n >= 2 {
 		// the same key at two positions, both signed (valid positionally, must be rejected as double count)
@@ -818,6 +930,16 @@ func (g *vgen) repeatFamily(keys []vkey, n int) {
 		g.ver("repeat-first", mk([][2]int{{a, a}}), ad2)
 		g.ver("repeat-second", mk([][2]int{{b, a}}), ad2)
 		g.ver("repeat-both", mk([][2]int{{a, a}, {b, a}}), ad2)
+		// the guardian's signature at one position, its other encoding (same signer by the oracle) at the other: still one guardian
+		// counted twice; the other encoding alone at the second position: valid
+		if full || n > 20 || pi%4 == 0 {
+			c := mk([][2]int{{b, a}})
+			c.Signatures[0].Signature = vtwin(digest, c.Signatures[0].Signature)
+			g.ver("repeat-second-twin", c, ad2)
+			c = mk([][2]int{{a, a}, {b, a}})
+			c.Signatures[1].Signature = vtwin(digest, c.Signatures[1].Signature)
+			g.ver("repeat-both-twin", c, ad2)
+		}
 		if !full && pi%9 != 0 && !(n > 20) {
 			continue
 		}
@@ -866,6 +988,158 @@ func (g *vgen) repeatFamily(keys []vkey, n int) {
 			g.ver("repeat3-two", mk([][2]int{{t[0], t[0]}, {t[2], t[0]}}), ad3)
 			g.ver("repeat3-all", mk([][2]int{{t[0], t[0]}, {t[1], t[0]}, {t[2], t[0]}}), ad3)
 		}
+	}
+}
+
+// Guardian lists built FROM signatures: any 65 bytes (r, s, v) with v in {0, 1} that the oracle recovers over the digest to some
+// address A are a valid signature of the guardian A - so A is put into the list at the index the signature claims ("recovers ... to
+// the address at the guardian index it claims" - nothing in the statement restricts how r and s are encoded).  s takes the edge
+// values of its range 1 .. N-1 (1, 2, the two values on either side of N/2, N-2, N-1, powers of two, short values), r is the r of a
+// genuine signature, a short one (leading zero bytes) or one with the top bit set; strings the oracle does NOT recover (s or r = 0,
+// = N, > N, r not on the curve) are used against lists that hold the zero address at that index and must be rejected without panic.
+func (g *vgen) craftFamily(keys []vkey, n int) {
+	r := g.r
+	if n < 1 {
+		return
+	}
+	base := g.randVAA(0, 1+r.Intn(40))
+	digest := crypto.Keccak256(crypto.Keccak256(vwireBody(base)))
+	addrs := make([]common.Address, n)
+	for i := range addrs {
+		addrs[i] = keys[i].addr
+	}
+	two := func(k uint) *big.Int { return new(big.Int).Lsh(big.NewInt(1), k) }
+	off := func(b *big.Int, d int64) *big.Int { return new(big.Int).Add(b, big.NewInt(d)) }
+	rnd := func(nbytes int) *big.Int { return new(big.Int).SetBytes(g.bytesN(nbytes)) }
+	genuine := vsign(keys[r.Intn(len(keys))], digest)
+	onCurve := func(x *big.Int) bool {
+		if x.Sign() <= 0 || x.Cmp(vCurveN) >= 0 {
+			return false
+		}
+		_, ok := vrecAddr(digest, vcraft(x, big.NewInt(1), 0))
+		return ok
+	}
+	find := func(gen func(k int) *big.Int) *big.Int { // first value of the sequence the oracle takes as an r
+		for k := 0; k < 64; k++ {
+			if x := gen(k); onCurve(x) {
+				return x
+			}
+		}
+		return new(big.Int).SetBytes(genuine[:32])
+	}
+	rs := []*big.Int{
+		new(big.Int).SetBytes(genuine[:32]),
+		find(func(k int) *big.Int { return big.NewInt(int64(k + 1)) }),                             // 31 leading zero bytes
+		find(func(int) *big.Int { return rnd(31) }),                                                // one leading zero byte
+		find(func(int) *big.Int { return rnd(16) }),                                                // half length
+		find(func(int) *big.Int { return new(big.Int).SetBit(rnd(32), 255, 1) }),                   // top bit set
+		find(func(k int) *big.Int { return off(vCurveN, -int64(k+1)) }),                            // just below N
+		find(func(int) *big.Int { x := rnd(32); x.SetBit(x, 255, 0); return x.SetBit(x, 254, 1) }), // top bit clear
+	}
+	ss := []*big.Int{big.NewInt(1), big.NewInt(2), big.NewInt(255), big.NewInt(256), two(128), off(two(248), -1), off(two(255), -1), two(255), off(two(255), 1),
+		off(vHalfN, -1), vHalfN, off(vHalfN, 1), off(vHalfN, 2), off(vCurveN, -2), off(vCurveN, -1),
+		rnd(31), new(big.Int).Mod(rnd(32), vCurveN), off(vHalfN, 1+int64(r.Intn(1<<30))), off(vHalfN, -int64(r.Intn(1<<30)))}
+	type crafted struct {
+		sig  [65]byte
+		addr common.Address
+	}
+	var good []crafted
+	for si, s := range ss {
+		// every s with two of the r values (three for the values around N/2), both recovery ids
+		for ri, rv := range rs {
+			around := s.Cmp(off(vHalfN, -1)) >= 0 && s.Cmp(off(vHalfN, 2)) <= 0
+			if ri != si%len(rs) && ri != (si+3)%len(rs) && !(around && ri == (si+5)%len(rs)) {
+				continue
+			}
+			for v := byte(0); v < 2; v++ {
+				sig := vcraft(rv, s, v)
+				if a, ok := vrecAddr(digest, sig); ok {
+					good = append(good, crafted{sig, a})
+				}
+			}
+		}
+	}
+	mk := func(claims map[int][65]byte) *VAA {
+		c := vclone(base)
+		for i := 0; i < n; i++ {
+			if sg, ok := claims[i]; ok {
+				c.Signatures = append(c.Signatures, &Signature{Index: uint8(i), Signature: sg})
+			}
+		}
+		return c
+	}
+	sigOf := map[int][65]byte{}
+	own := func(i int) [65]byte {
+		if s, ok := sigOf[i]; ok {
+			return s
+		}
+		s := vsign(keys[i], digest)
+		sigOf[i] = s
+		return s
+	}
+	g.crafts++
+	for k, cr := range good {
+		// (a third of them per list size, another third at the next size)
+		if (k+g.crafts)%3 != 0 {
+			continue
+		}
+		// alone at a position of the list ...
+		i := []int{0, n - 1, n / 2, r.Intn(n)}[k%4]
+		ad := append([]common.Address{}, addrs...)
+		ad[i] = cr.addr
+		g.ver("craft-single", mk(map[int][65]byte{i: cr.sig}), ad)
+		if n < 3 || k%2 != 0 {
+			continue
+		}
+		// ... and among genuine signers of the other positions
+		cl := map[int][65]byte{i: cr.sig}
+		for j := 0; j < n; j++ {
+			if j != i && r.Intn(3) != 0 && (n <= 20 || r.Intn(n) < 12) {
+				cl[j] = own(j)
+			}
+		}
+		g.ver("craft-among", mk(cl), ad)
+	}
+	// lists made of crafted signatures only (distinct recovered addresses), ascending positions
+	for start, lists := 0, 0; start < len(good) && n >= 2 && lists < 5; start, lists = start+n, lists+1 {
+		ad := append([]common.Address{}, addrs...)
+		cl := map[int][65]byte{}
+		seen := map[common.Address]bool{}
+		for j := 0; j < n && start+j < len(good); j++ {
+			cr := good[start+j]
+			if seen[cr.addr] {
+				continue
+			}
+			seen[cr.addr] = true
+			ad[j] = cr.addr
+			cl[j] = cr.sig
+		}
+		g.ver("craft-all", mk(cl), ad)
+	}
+	// strings outside the oracle's domain
+	gr := new(big.Int).SetBytes(genuine[:32])
+	gs := new(big.Int).SetBytes(genuine[32:64])
+	max256 := off(two(256), -1)
+	offCurve := find(func(int) *big.Int { return rnd(32) })
+	for k := 0; k < 64; k++ {
+		if x := new(big.Int).Mod(rnd(32), vCurveN); x.Sign() > 0 && !onCurve(x) {
+			offCurve = x
+			break
+		}
+	}
+	bad := [][65]byte{vcraft(gr, big.NewInt(0), genuine[64]), vcraft(gr, vCurveN, genuine[64]), vcraft(gr, off(vCurveN, 1), genuine[64]), vcraft(gr, max256, genuine[64]),
+		vcraft(gr, new(big.Int).Add(gs, vCurveN).And(new(big.Int).Add(gs, vCurveN), max256), genuine[64]),
+		vcraft(big.NewInt(0), gs, genuine[64]), vcraft(vCurveN, gs, genuine[64]), vcraft(off(vCurveN, 1), gs, genuine[64]), vcraft(max256, gs, genuine[64]),
+		vcraft(offCurve, gs, 0), vcraft(offCurve, gs, 1), vcraft(big.NewInt(0), big.NewInt(0), 0), vcraft(big.NewInt(0), big.NewInt(0), 1)}
+	for k, sg := range bad {
+		i := []int{0, n - 1, r.Intn(n)}[k%3]
+		ad := append([]common.Address{}, addrs...)
+		if a, ok := vrecAddr(digest, sg); ok {
+			ad[i] = a // (the oracle takes it after all: then it is a valid signature of that address)
+		} else if k%2 == 0 {
+			ad[i] = common.Address{}
+		}
+		g.ver("craft-unrecoverable", mk(map[int][65]byte{i: sg}), ad)
 	}
 }
 
@@ -1114,7 +1388,9 @@ func TestVerifVaa(t *testing.T) {
 	g := &vgen{r: rand.New(rand.NewSource(seed)), w: bufio.NewWriterSize(f, 1<<20), dist: map[string]int{}}
 	defer g.w.Flush()
 	g.wireKinds = map[string]bool{"valid": true, "swap": true, "reverse": true, "rotate": true, "swapends": true, "order-desc": true, "dup": true,
-		"outsider": true, "bodyflip": true, "dropone": true, "repeatedkey": true, "repeat-first": true, "repeat-second": true, "repeat-both": true}
+		"outsider": true, "bodyflip": true, "dropone": true, "repeatedkey": true, "repeat-first": true, "repeat-second": true, "repeat-both": true,
+		"twin-one": true, "twin-all": true, "twin-mixed": true, "twin-first": true, "twin-last": true, "twin-alternate": true, "twin-beside-original": true,
+		"repeat-second-twin": true, "repeat-both-twin": true, "craft-single": true, "craft-among": true, "craft-all": true, "craft-unrecoverable": true}
 
 	part := os.Getenv("VERIF_PART")
 	plens := []int{1, 2, 3, 52, 53, 100, 999, 1000, 1001, 1002, 1024, 2000, 4096}
@@ -1277,6 +1553,9 @@ func TestVerifVaa(t *testing.T) {
 			g.verifyFamily(keys, n, true)
 			if k == 0 && (!thorough || n <= 20 || n%16 == 0 || (n >= 126 && n <= 130) || n >= 254) {
 				g.repeatFamily(keys, n)
+			}
+			if k == 0 && (!thorough || n <= 20 || n%16 == 0 || n >= 254) {
+				g.craftFamily(keys, n)
 			}
 		}
 	}
